@@ -491,3 +491,7 @@ def _pool_sweep(ctx):
 
 
 DIRECTED = {"default-pool-sweep": _pool_sweep}
+from ..suite_leg import make as _suite_leg  # noqa: E402
+
+DIRECTED["suite-under-monitors"] = _suite_leg("C08")
+
